@@ -127,6 +127,8 @@ CHECKS = {
             {"run": "^TestC06WithTTL$", "n": {"quick": 20000, "thorough": 150000}},
             {"run": "^TestC06Failover$", "n": {"quick": 8000, "thorough": 40000}},
             {"run": "^TestC06SkipReadLone$", "n": {"quick": 3000, "thorough": 20000}},
+            # frontends on their own default backend (BackendConfig), observed black-box on a fake clock
+            {"run": "^TestC06OwnBackend$", "n": {"quick": 600, "thorough": 3000}},
             # hundreds of background builds whose callers are cancelled after their Get returned
             {"run": "^TestC01ManyKeys$", "name": "C01ManyKeys-for-C06", "n": {"quick": 300, "thorough": 3000}},
             # layered caches: nested Gets on another instance under contexts derived from the builder context
@@ -212,6 +214,8 @@ CHECKS = {
             {"run": "^TestC06Failover$", "name": "C06Failover-for-C10", "n": {"quick": 5000, "thorough": 30000}},
             # a value built through Failover stays fresh for the TTL it was built with (stable values, ObserveMutability)
             {"run": "^TestC05Suppression$", "name": "C05Suppression-for-C10", "n": {"quick": 3000, "thorough": 20000}},
+            # expiry of entries whose write raced a batch operation (DeleteAll, ExpireAll, cleanup) of the same cache
+            {"run": "^TestC08Linearizable$", "name": "C08Linearizable-for-C10", "n": {"quick": 12000, "thorough": 60000}},
             {"fuzz": "^FuzzC10ExpiryBounds$", "fuzztime": {"thorough": "45s"}, "tiers": ("thorough",), "timeout": {"quick": 300, "thorough": 600}},
         ],
     },
